@@ -44,9 +44,14 @@ def _line_canon(l):
           bool(observe.is_virtual(l))]
 
 
-def canon(x, depth=0):
+def canon(x, depth=0, idx=None):
   """JSON-able canonical form.  Lines are rendered by class, text, connection
-  and virtual flag (never by identity); containers keep their order."""
+  and virtual flag (never by identity); containers keep their order.  With
+  `idx` ({id(line): position in the replica's line table}) a line of the
+  table is rendered by its position -- its text is part of the deep
+  observation and need not be repeated in every result."""
+  if idx is not None:
+    return _Canon(idx).c(x, 0)
   if depth > 12:
     return ["deep", type(x).__name__]
   if x is None or isinstance(x, (bool, str)):
@@ -87,6 +92,34 @@ def canon(x, depth=0):
   return ["obj", type(x).__name__, _ADDR.sub("0x?", safe_str(x))[:200]]
 
 
+class _Canon:
+  def __init__(self, idx):
+    self.idx = idx
+
+  def c(self, x, depth):
+    if x is None or isinstance(x, (bool, str, int)):
+      return x
+    if isinstance(x, gfapy.Line):
+      i = self.idx.get(id(x))
+      return ["line#", i] if i is not None else _line_canon(x)
+    if depth > 12:
+      return ["deep", type(x).__name__]
+    d = depth + 1
+    if isinstance(x, gfapy.OrientedLine):
+      return ["ol", self.c(x.line, d), self.c(x.orient, d)]
+    if isinstance(x, gfapy.SegmentEnd):
+      return ["se", self.c(x.segment, d), self.c(x.end_type, d)]
+    if isinstance(x, gfapy.FieldArray):
+      return ["fieldarray", x.datatype, self.c(list(x), d)]
+    if isinstance(x, (list, tuple)):
+      return [type(x).__name__, [self.c(e, d) for e in x]]
+    if isinstance(x, dict):
+      return ["dict", [[self.c(k, d), self.c(v, d)] for k, v in x.items()]]
+    if isinstance(x, (set, frozenset)):
+      return ["set", sorted((self.c(e, d) for e in x), key=repr)]
+    return canon(x, depth)
+
+
 # --------------------------------------------------------------------------
 # deep observation
 # --------------------------------------------------------------------------
@@ -98,15 +131,34 @@ NAME_LISTS = ["names", "segment_names", "edge_names", "gap_names", "set_names",
               "path_names", "external_names", "custom_record_keys"]
 
 
-def _k(x):
-  if isinstance(x, gfapy.OrientedLine):
-    return [_k(x.line), x.orient]
-  if isinstance(x, gfapy.Line):
-    return observe.lkey(x)
-  return "str:" + safe_str(x)
+class _Keys:
+  """lkey / text of each line computed once per observation."""
+  def __init__(self):
+    self.k = {}
+    self.t = {}
+
+  def text(self, l):
+    i = id(l)
+    if i not in self.t:
+      self.t[i] = safe_str(l)
+    return self.t[i]
+
+  def key(self, x):
+    if isinstance(x, gfapy.OrientedLine):
+      return [self.key(x.line), x.orient]
+    if not isinstance(x, gfapy.Line):
+      return "str:" + safe_str(x)
+    i = id(x)
+    if i not in self.k:
+      n = observe.line_name(x)
+      v = "~" if observe.is_virtual(x) else ""
+      rt = observe.rt_of(x)
+      self.k[i] = "{}{}:{}".format(v, rt, n) if n is not None else \
+          "{}{}={}".format(v, rt, self.text(x))
+    return self.k[i]
 
 
-def _one_line(l, g):
+def _one_line(l, g, K):
   rt = observe.rt_of(l)
   refs = []
   for f in observe.REF_FIELDS.get(rt, ()):
@@ -115,11 +167,11 @@ def _one_line(l, g):
     except Exception as e:
       refs.append([f, "<{}>".format(type(e).__name__)])
       continue
-    refs.append([f, [_k(e) for e in v] if isinstance(v, list) else _k(v)])
+    refs.append([f, [K.key(e) for e in v] if isinstance(v, list) else K.key(v)])
   for f in observe.NONFIELD_REFS.get(rt, ()):
     try:
       v = getattr(l, f)
-      refs.append([f, [_k(e) for e in v]])
+      refs.append([f, [K.key(e) for e in v]])
     except Exception as e:
       refs.append([f, "<{}>".format(type(e).__name__)])
   back = []
@@ -129,17 +181,51 @@ def _one_line(l, g):
     except Exception:
       continue
     if isinstance(v, list) and v:
-      back.append([c, [_k(m) for m in v]])
+      back.append([c, [K.key(m) for m in v]])
   try:
     own = l.gfa is g
   except Exception:
     own = None
-  return [safe_str(l), bool(observe.is_virtual(l)), own, refs, back]
+  return [K.text(l), bool(observe.is_virtual(l)), own, refs, back]
+
+
+def _reach(g, ls):
+  """Lines reachable from ls through reference fields and back-reference
+  collections that g.lines does not list (placeholders for unknown ids)."""
+  seen = set(id(l) for l in ls)
+  extra = []
+  stack = list(ls)
+  while stack:
+    l = stack.pop()
+    rt = observe.rt_of(l)
+    vals = []
+    for f in observe.REF_FIELDS.get(rt, ()):
+      try:
+        vals.append(l.get(f))
+      except Exception:
+        pass
+    for c in observe.NONFIELD_REFS.get(rt, []) + observe.BACKREFS.get(rt, []):
+      try:
+        vals.append(getattr(l, c))
+      except Exception:
+        pass
+    flat = []
+    for v in vals:
+      flat.extend(v if isinstance(v, list) else [v])
+    for t in flat:
+      if isinstance(t, gfapy.OrientedLine):
+        t = t.line
+      if isinstance(t, gfapy.Line) and id(t) not in seen:
+        seen.add(id(t))
+        extra.append(t)
+        stack.append(t)
+  return extra
 
 
 def deep_obs(g):
   """Everything a user can read back from a Gfa, as one JSON-able value.
   Stored order is kept everywhere."""
+  K = _Keys()
   out = {"version": g.version}
   try:
     out["text"] = str(g).split("\n")
@@ -147,7 +233,7 @@ def deep_obs(g):
     out["text"] = exc_canon(e)
   for c in COLLECTIONS:
     try:
-      out["c." + c] = [observe.lkey(l) for l in getattr(g, c)]
+      out["c." + c] = [K.key(l) for l in getattr(g, c)]
     except Exception as e:
       out["c." + c] = exc_canon(e)
   for c in NAME_LISTS:
@@ -159,21 +245,27 @@ def deep_obs(g):
     out["header"] = safe_str(g.header)
   except Exception as e:
     out["header"] = exc_canon(e)
-  ls, extra = observe.all_lines(g)
-  out["lines"] = [_one_line(l, g) for l in ls + extra]
+  try:
+    ls = [l for l in g.lines if observe.rt_of(l) != "H"]
+  except Exception:
+    ls = []
+  out["lines"] = [_one_line(l, g, K) for l in ls + _reach(g, ls)]
   return out
 
 
 def line_table(g):
   """Deterministic table of the line objects of a replica: g.lines, the
-  merged header, then virtual / placeholder lines reachable from them."""
-  ls, extra = observe.all_lines(g)
+  merged header, then placeholder lines reachable from them."""
+  try:
+    ls = list(g.lines)
+  except Exception:
+    ls = []
   tab = list(ls)
   try:
     tab.append(g.header)
   except Exception:
     pass
-  tab.extend(extra)
+  tab.extend(_reach(g, ls))
   return tab
 
 
@@ -411,7 +503,7 @@ def op_args(op):
   return [], {}
 
 
-def run_query(g, tab, q):
+def run_query(g, tab, q, idx=None):
   """Execute one query.  Returns (canonical result, canonical arguments before
   the call, canonical arguments after the call).  An exception raised by the
   query (or while fetching the receiver, which is itself a read) is an
@@ -427,14 +519,14 @@ def run_query(g, tab, q):
     return ["raised-in-setup", type(e).__name__], None, None
   except Exception as e:
     return ["raised-in-setup"] + exc_canon(e)[1:], None, None
-  before = canon([args, kw])
+  before = canon([args, kw], idx=idx) if (args or kw) else None
   try:
-    r = canon(apply_op(x, q["op"], args, kw))
+    r = canon(apply_op(x, q["op"], args, kw), idx=idx)
   except BadDescriptor:
     raise
   except Exception as e:
     r = exc_canon(e)
-  after = canon([args, kw])
+  after = canon([args, kw], idx=idx) if (args or kw) else None
   return r, before, after
 
 
